@@ -134,6 +134,38 @@ def check_fit(case, ctx):
                 raise Violation('intensity_error', f'sma {s.sma:.2f}: intensity '
                                 f'ratio {s.intens / f(s.sma):.4f}')
         ctx.event('well_sampled_isophotes', nw)
+    # the same integer-valued image stored as another dtype gives the same
+    # isophotes (sampling must be done in floating point)
+    dt = case.get('dtype')
+    rr = np.linspace(0.0, 300.0, 3001)
+    k = 50000.0 / float(img.max())
+    bright = rr[radial_law(g)(rr) * k >= 200.0]
+    # stay where the rounded image still decreases monotonically (the flat
+    # zero outskirts of a quantised profile are outside the property)
+    r_ok = 0.8 * float(bright.max()) if bright.size else 0.0
+    kwq = dict(kw)
+    kwq['maxsma'] = min(kw.get('maxsma', 1e9), r_ok)
+    if dt and kwq['maxsma'] <= 1.3 * g['scale'] * i['sma_f']:
+        ctx.event('dtype_region_too_small')
+        dt = None
+    if dt:
+        q = np.round(img * k)
+        with warnings.catch_warnings():
+            warnings.simplefilter('ignore')
+            def _fit(a):
+                gm = EllipseGeometry(x_i, y_i, g['scale'] * i['sma_f'], eps_i, pa_i)
+                return Ellipse(a, gm).fit_image(**kwq)
+            ia, ib = _fit(q.copy()), _fit(q.astype(dt))
+        ctx.event('dtype_' + dt)
+        require(len(ia) == len(ib), 'dtype_dependent',
+                f'{len(ia)} isophotes for float64 but {len(ib)} for {dt}')
+        for name in ('sma', 'intens', 'eps', 'pa', 'x0', 'y0', 'rms'):
+            va = np.asarray(getattr(ia, name), float)
+            vb = np.asarray(getattr(ib, name), float)
+            if not np.allclose(va, vb, rtol=1e-9, atol=1e-9, equal_nan=True):
+                raise Violation('dtype_dependent',
+                                f'isophote {name} differs between the float64 '
+                                f'image and the same numbers as {dt}')
     # model image reproduces the galaxy inside the fitted region
     if case['model'] and quant and g['law'] == 'gauss' and g['eps'] <= 0.5 and len(iso) > 6:
         with warnings.catch_warnings():
@@ -202,7 +234,9 @@ def fit_cases(draw):
             'init': {'dx': draw(st.floats(-1.5, 1.5)), 'dy': draw(st.floats(-1.5, 1.5)),
                      'deps': draw(st.floats(-0.1, 0.1)), 'dpa': draw(st.floats(-0.3, 0.3)),
                      'sma_f': draw(st.floats(0.6, 1.2))},
-            'kwargs': kw, 'model': draw(st.booleans())}
+            'kwargs': kw, 'model': draw(st.booleans()),
+            'dtype': draw(st.sampled_from([None, None, None, 'uint16', 'int32',
+                                           '>f8']))}
 
 
 # --------------------------------------------------------------------------
